@@ -13,21 +13,26 @@ def main():
     if not ok:
         print(out)
         return 1
-    ok, out = vlib.coq_build("all", timeout=3400)
+    import json
+    man = json.load(open(os.path.join(vlib.ROOT, "MANIFEST.json")))
+    ids = [c["property_id"] for c in man["checks"]]
+    rc = 0
+    # only what the registered checks need (work in progress must not break setup)
+    targets = " ".join("theories/Props/%s.vo" % i for i in ids)
+    ok, out = vlib.coq_build(targets, timeout=3400)
     print(out[-3000:])
     if not ok:
         print("coq build failed")
-        return 1
-    rc = 0
-    for f in sorted(glob.glob(os.path.join(vlib.ROOT, "tools", "props", "c*.py"))):
-        P = importlib.import_module("props." + os.path.basename(f)[:-3])
+        rc = 1
+    for i in ids:
+        P = importlib.import_module("props." + i.lower())
         ok, out = vlib.ocaml_build(P.EXTRACT, P.MLMOD, P.RUNNER)
         print("ocaml", P.ID, "ok" if ok else "FAILED\n" + out[-2000:])
         rc |= 0 if ok else 1
-    for prof in ("debug", "release"):
-        ok, out, exe = vlib.harness_build(prof)
-        print("harness", prof, "ok" if ok else "FAILED\n" + out[-3000:])
-        rc |= 0 if ok else 1
+        for prof in ("debug", "release"):
+            ok, out, exe = vlib.harness_build(P.HARNESS_BIN, prof, hooks=getattr(P, "HOOKS", False))
+            print("harness", P.ID, prof, "ok" if ok else "FAILED\n" + out[-3000:])
+            rc |= 0 if ok else 1
     return rc
 
 
